@@ -285,7 +285,26 @@ silent("C06", "local renamed in one clone",
 silent("C06", "clip written with np.clip",
        ("sub", "becke.py", "                    pt_ind=(indices - ibegin).clip(min=0),\n", "                    pt_ind=np.clip(indices - ibegin, 0, None),\n"))
 
+fire("C06", "Hirshfeld segment takes the wrong slice of the pro-atom", "R5.hirshfeld-share",
+     ("sub", "hirshfeld.py", "            aim_weights[start:end] = proatom[start:end]\n", "            aim_weights[start:end] = proatom[: end - start]\n"))
+fire("C06", "Hirshfeld pro-molecule misses atoms after normalisation moved into the loop", "R5.hirshfeld-share",
+     ("sub", "hirshfeld.py", "            aim_weights[start:end] = proatom[start:end]\n", "            aim_weights[start:end] = proatom[start:end] / promolecule[start:end]\n"),
+     ("sub", "hirshfeld.py", "        aim_weights /= promolecule\n", ""))
+silent("C06", "Hirshfeld locals renamed",
+       ("sub", "hirshfeld.py", "            start, end = indices[index], indices[index + 1]\n            aim_weights[start:end] = proatom[start:end]\n",
+        "            lo, hi = indices[index], indices[index + 1]\n            aim_weights[lo:hi] = proatom[lo:hi]\n"))
+fire("C05", "shell index table advanced by the angular degree instead of the shell size", "R6.shell-index-table",
+     ("sub", "atomgrid.py", "            indices[i + 1] = indices[i] + len(points)\n", "            indices[i + 1] = indices[i] + deg_i\n"))
+silent("C05", "shell loop index aliased by a local",
+       ("sub", "atomgrid.py", "            sphere_grid = AngularGrid(degree=deg_i, method=method)\n",
+        "            sphere_grid = AngularGrid(degree=deg_i, method=method)\n            shell = i\n"),
+       ("sub", "atomgrid.py", "            indices[i + 1] = indices[i] + len(points)\n", "            indices[shell + 1] = indices[shell] + len(points)\n"))
 # ------------------------------------------------------------------------------------------ C07
+fire("C07", "default radial grid of MolGrid uses other units than AtomGrid.from_preset", "R4.default-rgrid-siblings",
+     ("sub", "molgrid.py", "        rmax = rmax * scipy.constants.angstrom / scipy.constants.value(\"atomic unit of length\")\n", "        rmax = rmax * 1.8897259886\n"))
+silent("C07", "constructor loop locals renamed",
+       ("sub", "molgrid.py", "            start, end = self._indices[i], self._indices[i + 1]\n            self._points[start:end] = atom_grid.points  # centers it at the atomic grid.\n            self._atweights[start:end] = atom_grid.weights\n",
+        "            lo, hi = self._indices[i], self._indices[i + 1]\n            self._atweights[lo:hi] = atom_grid.weights\n            self._points[lo:hi] = atom_grid.points\n"))
 fire("C07", "rotation seed not forwarded by from_size", "R1.argument-fan-out",
      ("sub", "molgrid.py", "AtomGrid(rad_grid, degrees=None, sizes=[size], center=atcoord, rotate=rotate)", "AtomGrid(rad_grid, degrees=None, sizes=[size], center=atcoord)"))
 fire("C07", "list of radial grids indexed by atomic number", "R1.per-atom-dispatch",
